@@ -775,6 +775,10 @@ func (ro *RedisOutput) parseAofCommand(replayQuit usync.WaitCloser, reader *bufi
 		}
 		aofCmdCounter.Inc(ro.cfg.InputName)
 
+		// multi/exec belong to no database : a transaction may enter or leave a filtered database by a select
+		// inside the block, and the sender must see both brackets of a pair or none of them
+		txnBracket := sCmd == "multi" || sCmd == "exec"
+
 		// filter db, filter command, filter key
 		if sCmd != "ping" {
 			if strings.EqualFold(sCmd, "select") {
@@ -797,14 +801,14 @@ func (ro *RedisOutput) parseAofCommand(replayQuit usync.WaitCloser, reader *bufi
 				ignoresentinel = true
 			}
 
-			if bypass || ignoreCmd || ignoresentinel {
+			if (bypass && !txnBracket) || ignoreCmd || ignoresentinel {
 				ro.filterCounterAdd(1)
 				continue
 			}
 		}
 
 		newArgv, reject = ro.outFilter.FilterCmdKey(sCmd, argv)
-		if bypass || reject {
+		if (bypass && !txnBracket) || reject {
 			ro.filterCounterAdd(1)
 			continue
 		}
